@@ -565,6 +565,36 @@ def parse_thread_locals():
     return res
 
 
+def parse_match_list_add():
+    """MatchList::add: what the two same-start arms do with the end and the base of the listed match"""
+    text = src("lib/src/scanner/matches.rs")
+    impl = impl_block(text, r"impl MatchList\s*\{", "impl MatchList")
+    b = re.sub(r"\s+", "", strip_comments(fn_body(impl, "add", "MatchList::add")))
+    for need in ("Some(last)ifnew_match.range.start>last.range.start=>{self.matches.push(new_match);true}",
+                 "None=>{self.matches.push(new_match);true}",
+                 "Err(index)=>{self.matches.insert(index,new_match);true}",
+                 ".binary_search_by_key(&new_match.range.start,|m|{m.range.start})"):
+        if need not in b:
+            raise TranslateError("MatchList::add changed (missing `%s`)" % need)
+    tm = re.search(r"Some\(last\)ifnew_match\.range\.start==last\.range\.start=>\{ifreplace_if_longer\{last\.range\.end=new_match\.range\.end;(last\.base=new_match\.base;)?\}false\}", b)
+    if not tm:
+        raise TranslateError("MatchList::add: the `same start as the last match` arm is not understood")
+    tail_base = tm.group(1) is not None
+    head = "Ok(index)ifreplace_if_longer=>{letexisting_match=&mutself.matches[index];"
+    if head not in b:
+        raise TranslateError("MatchList::add: the binary-search replace arm is not understood")
+    rest = b[b.index(head) + len(head):]
+    m1 = re.match(r"ifexisting_match\.range\.end<new_match\.range\.end\{existing_match\.range\.end=new_match\.range\.end;(existing_match\.base=new_match\.base;)?\}false\}", rest)
+    m2 = re.match(r"existing_match\.range\.end=cmp::max\(existing_match\.range\.end,new_match\.range\.end,?\);(existing_match\.base=new_match\.base;)?false\}", rest)
+    if m1:
+        bs_base = m1.group(1) is not None
+    elif m2:
+        bs_base = False   # an unconditional base assignment after max() would not follow the longer match either
+    else:
+        raise TranslateError("MatchList::add: the binary-search replace arm is not understood: " + rest[:160])
+    return tail_base, bs_base
+
+
 def main():
     ctx_text, scn_text, blk_text, wasm_text = src(CTX), src(SCN), src(BLK), src(WASM)
     groups = [
@@ -610,6 +640,19 @@ def main():
         fb = re.sub(r"\s+", "", strip_comments(fn_body(ctx_text, "first_use_in_scan")))
         if fb != "last_scan_id.with(|id|id.replace(self.scan_id)!=self.scan_id)":
             raise TranslateError("ScanContext::first_use_in_scan changed: " + fb[:200])
+    ml_tail_base, ml_bs_base = parse_match_list_add()
+    # blocks::Scanner::scan: which listed matches get a snippet after a block
+    bsn = re.sub(r"\s+", "", strip_comments(fn_body(blk_text, "scan", "blocks::Scanner::scan", start=blk_text.find("pub fn scan("))))
+    if "match_list.iter().filter(|match_|{match_.base==base&&match_.range.end<=base+data.len()})" in bsn:
+        snippet_filter = "base_and_end"
+    elif "match_list.iter().filter(|match_|match_.base==base)" in bsn:
+        snippet_filter = "base_only"
+    else:
+        raise TranslateError("blocks::Scanner::scan: which matches get a snippet is not understood")
+    for need in ("letcontext_start=cmp::max(match_.range.start.saturating_sub(ctx.match_context_size),base,);",
+                 "matchself.snippets.entry(context_start){Entry::Occupied(mutentry)=>{letsnippet=entry.get_mut();ifcontext_data.len()>snippet.len(){entry.insert(context_data.to_vec());}}Entry::Vacant(entry)=>{entry.insert(context_data.to_vec());}}"):
+        if need not in bsn:
+            raise TranslateError("blocks::Scanner::scan: snippet collection changed (missing `%s`)" % need[:60])
     tmo = parse_timeout(ctx_text, wasm_text)
     tls = parse_thread_locals()
 
@@ -653,6 +696,15 @@ Definition host_search_forces_epoch_deadline_zero : bool := {str(tmo['forces']).
 Definition eval_maps_state_timeout_to_error : bool := {str(tmo['maps']).lower()}.
 Definition eval_passes_wasm_timeout_error : bool := {str(tmo['err_passthrough']).lower()}.
 Definition eval_drains_matching_rules_before_result : bool := {str(tmo['drains']).lower()}.
+
+(* MatchList::add, the two arms for a match whose start is already listed (replace_if_longer = true):
+   the `same start as the last match` arm takes the new end; the binary-search arm takes it when longer.
+   Does the listed match also take the base of the block the new match was found in? *)
+Definition ml_tail_arm_moves_base : bool := {str(ml_tail_base).lower()}.
+Definition ml_search_arm_moves_base : bool := {str(ml_bs_base).lower()}.
+(* blocks::Scanner::scan stores a snippet for the listed matches whose base is the block's base
+   (and, since the shorter-block fix, that end inside the block) *)
+Definition snippet_filter_checks_end : bool := {str(snippet_filter == "base_and_end").lower()}.
 
 (* verify_anchored_patterns: `offset.overflowing_sub(base)`, the block is skipped when its base is past the anchor *)
 Definition anchored_skips_block_past_offset : bool := {str(tmo['anchored_skip']).lower()}.""")
